@@ -96,7 +96,7 @@ namespace link_layer {
         static constexpr std::uint16_t  wrap_mark = 0;
 
         template < class P >
-        static std::uint8_t pdu_length( const P& pdu );
+        static std::size_t pdu_length( const P& pdu );
 
         template < typename P >
         static std::size_t pdu_length( P* );
@@ -203,7 +203,7 @@ namespace link_layer {
 
     template < std::size_t Size, typename Buffer, typename Layout >
     template < class P >
-    std::uint8_t pdu_ring_buffer< Size, Buffer, Layout >::pdu_length( const P& pdu )
+    std::size_t pdu_ring_buffer< Size, Buffer, Layout >::pdu_length( const P& pdu )
     {
         return pdu_length( pdu.buffer );
     }
